@@ -71,12 +71,16 @@ def as_slist(eng, xs):
         items = list(xs)
 
         def get(i, items=items):
-            if isinstance(i, int):
-                return items[i]
-            if z3.is_int_value(i):
-                return items[i.as_long()]
             if not items:
                 raise Unsupported("element of empty list")
+            # an index outside the list is only ever asked for under a guard that excludes it
+            # (concat / merge evaluate both sides): any element will do there
+            if isinstance(i, int):
+                if -len(items) <= i < 0:
+                    return items[i]
+                return items[min(max(i, 0), len(items) - 1)]
+            if z3.is_int_value(i):
+                return items[min(max(i.as_long(), 0), len(items) - 1)]
             r = items[-1]
             for k in range(len(items) - 2, -1, -1):
                 r = merge(eng, i == k, items[k], r)
